@@ -499,7 +499,7 @@ func (d *gnDesc) valueFor(s *gnSite, asJSON bool) (tv *gpb.TypedValue, want stri
 		s.rel = map[string]string{"": want}
 		if asJSON && s.kind == "leaflist" && d.rng.Intn(3) == 0 {
 			// the empty array: the leaf-list is set to "no values", whatever it held
-			s.rel = map[string]string{}
+			s.rel = map[string]string{"": ""} // the reference: the leaf-list holds nothing afterwards
 			return &gpb.TypedValue{Value: &gpb.TypedValue_JsonIetfVal{JsonIetfVal: []byte("[]")}}, "", "json-leaflist-empty"
 		}
 		if asJSON {
